@@ -15,7 +15,7 @@ F == INSTANCE FollowerAbs WITH ByteOf <- SByte
 Init == \E s \in Starts : TraceInit(s) /\ conns = <<>>
 
 Pkt == /\ IsEvent("pkt")
-       /\ LET j == F!Judge(conns, [attach |-> Cfg.attach, keepAlive |-> Cfg.keepAlive, maxChunks |-> Cfg.maxChunks, maxBytes |-> Cfg.maxBytes, ignore |-> Cfg.ignore], Ev) IN
+       /\ LET j == F!Judge(conns, [attach |-> Cfg.attach, keepAlive |-> Cfg.keepAlive, maxChunks |-> Cfg.maxChunks, maxBytes |-> Cfg.maxBytes, ignore |-> Cfg.ignore, termcb |-> Cfg.termcb], Ev) IN
           /\ j.ok = TRUE
           /\ conns' = j.next
 Next == Pkt
